@@ -8,9 +8,12 @@
 import Chrono.Proofs.DateL
 import Chrono.Proofs.IsoL
 import Chrono.Proofs.C01GapsL
+import Chrono.Proofs.C01Round2L
+import Chrono.Props.GenDate
 
 namespace Chrono.Props.C01
 open Chrono Chrono.M Chrono.Spec Chrono.Proofs Chrono.Extracted Chrono.Proofs.C01Gaps
+  Chrono.Proofs.C01R2
 
 /-- the four lookup tables, as re-extracted from the Rust source on this run, are exactly what the
 independent calendar specification prescribes (every cell) -/
@@ -137,18 +140,22 @@ theorem yo_form_unique (y1 y2 : Int) (o1 o2 : Nat) (h1 : 1 ≤ o1 ∧ o1 ≤ yea
 week of the date's day number `n`: the Thursday `isoThursday n` of `n`'s Monday-based week is the
 `ot`-th day of calendar year `Y`; the ISO year is `Y` and the week number is `(ot − 1)/7 + 1`
 (so week 1 is the week with the year's first Thursday, i.e. the week containing 4 January).  The low
-four bits of the packed value are the flags of `Y`. -/
+four bits of the packed value are the flags of `Y`.  Last conjunct (audit2 gap 6): `IsoWeek::week0` with
+its `u32` subtraction as the source has it (`IsoWeek.week0r`, Model/DateViews.lean — `.panic` on a week
+field of 0) returns `.ok`, i.e. the subtraction never underflows on the ISO week of a date. -/
 theorem iso_week_spec (y : Int) (o : Nat) (hy : MIN_YEAR ≤ y ∧ y ≤ MAX_YEAR)
     (ho : 1 ≤ o ∧ o ≤ yearLen y) :
     ∃ (ywf Y : Int) (ot : Nat), Date.iso_week (dateOfYo y o) = .ok ywf ∧
       1 ≤ ot ∧ ot ≤ yearLen Y ∧ dayNumYo Y ot = isoThursday (dayNumYo y o) ∧
       IsoWeek.year ywf = Y ∧ IsoWeek.week ywf = ((ot - 1) / 7 + 1 : Nat) ∧
-      IsoWeek.week0 ywf = ((ot - 1) / 7 : Nat) ∧ ywf % 16 = flagsOf Y := by
+      IsoWeek.week0 ywf = ((ot - 1) / 7 : Nat) ∧ ywf % 16 = flagsOf Y ∧
+      IsoWeek.week0r ywf = .ok ((ot - 1) / 7) := by
   obtain ⟨Y, ot, h1, h2, h3, h4⟩ := iso_week_spec' y o hy ho
   have hl := yearLen_ge Y
   have hf := (flagsOf_facts Y).1
   obtain ⟨f1, f2⟩ := ywf_fields Y ((ot - 1) / 7 + 1) (flagsOf Y) (by omega) hf
-  refine ⟨_, Y, ot, h4, h1, h2, h3, f1, f2, ?_, by omega⟩
+  refine ⟨_, Y, ot, h4, h1, h2, h3, f1, f2, ?_, by omega,
+    week0r_spec Y ((ot - 1) / 7 + 1) (flagsOf Y) (by omega) (by omega) hf⟩
   unfold IsoWeek.week0; unfold IsoWeek.week at f2; rw [f2]; push_cast; omega
 
 /-- the number of ISO weeks of **every** year: week `w` exists in ISO year `y` (its Thursday is a
@@ -441,5 +448,201 @@ theorem pred_weekday (y : Int) (o : Nat) (hy : MIN_YEAR ≤ y ∧ y ≤ MAX_YEAR
 example : Date.succ_opt (dateOfYo 2023 365) = .ok (some (dateOfYo 2024 1)) ∧
     (dateOfYo 2023 365).weekday = .sun ∧ (dateOfYo 2024 1).weekday = .mon ∧
     Date.pred_opt (dateOfYo 2024 1) = .ok (some (dateOfYo 2023 365)) := by decide +kernel
+
+/-! ### Second audit (audit2/C01.md, closed 2026-09-30; helper lemmas: Proofs/C01Round2L.lean) -/
+
+/-- **the calendar specification is coherent** (audit2 gap 2a), for **every** integer year (negative
+years and year 0 included): the closed-form day number advances from one 1 January to the next by
+exactly the length the leap rule gives the year, and by 146097 days over 400 years; the ordinal of
+1 January is 1, the first day of each month follows the last day (by `monthLen`) of the month before,
+and 31 December is day `yearLen`.  Together with the anchor `consts_ok` (1970-01-01 = day 719163, a
+Thursday) this derives the closed form `daysBeforeYear` and the cumulative table inside `ordinalOf`
+from the leap rule and the month lengths alone — a table with two months swapped, or a closed form
+that drifts in negative years, would satisfy the bijection theorems (`ymd_form_unique`,
+`accessors_ok`) but not this one.  (The external validation against Python / GNU date covers
+years 1..9999 only; this theorem is what carries it to every other year.) -/
+theorem spec_coherent (y : Int) :
+    daysBeforeYear (y + 1) = daysBeforeYear y + yearLen y ∧
+    daysBeforeYear (y + 400) = daysBeforeYear y + 146097 ∧
+    ordinalOf y 1 1 = 1 ∧
+    (∀ m, 1 ≤ m → m < 12 → ordinalOf y (m + 1) 1 = ordinalOf y m (monthLen y m) + 1) ∧
+    ordinalOf y 12 31 = yearLen y ∧
+    (∀ m d, validYmd y m d = true → 1 ≤ ordinalOf y m d ∧ ordinalOf y m d ≤ yearLen y) :=
+  ⟨dby_step y, dby_400 y, ordinalOf_jan1 y, ordinalOf_month_step y, (ordinalOf_dec31 y).1,
+    valid_ordinal_bounds y⟩
+
+/-- non-vacuity: a leap year, a common century, year 0 (leap) and a negative leap year -/
+example : yearLen 2024 = 366 ∧ yearLen 1900 = 365 ∧ yearLen 0 = 366 ∧ yearLen (-4) = 366 ∧
+    daysBeforeYear 1 = 0 ∧ daysBeforeYear 0 = -366 ∧ daysBeforeYear (-399) = -146097 ∧
+    ordinalOf 2024 3 1 = ordinalOf 2024 2 29 + 1 ∧ ordinalOf 2023 3 1 = ordinalOf 2023 2 28 + 1 ∧
+    monthLen (-4) 2 = 29 := by decide
+
+/-- **exactly one year-month-day form, at the user level** (audit2 gap 3): two argument tuples for
+which `from_ymd_opt` returns the same date are the same tuple -/
+theorem ymd_inj (y y' : Int) (m d m' d' : Nat) (x : Date)
+    (h : Date.from_ymd_opt y m d = .ok (some x)) (h' : Date.from_ymd_opt y' m' d' = .ok (some x)) :
+    y = y' ∧ m = m' ∧ d = d' := ymd_inj' y y' m d m' d' x h h'
+
+/-- exactly one year-ordinal form: `from_yo_opt` is injective on the tuples it accepts -/
+theorem yo_inj (y y' : Int) (o o' : Nat) (x : Date)
+    (h : Date.from_yo_opt y o = .ok (some x)) (h' : Date.from_yo_opt y' o' = .ok (some x)) :
+    y = y' ∧ o = o' := yo_inj' y y' o o' x h h'
+
+/-- exactly one ISO week-date form: `from_isoywd_opt` is injective on the tuples it accepts (all
+integers `y`, all naturals `w`, no range hypothesis) -/
+theorem isoywd_inj (y y' : Int) (w w' : Nat) (wd wd' : Weekday) (x : Date)
+    (h : Date.from_isoywd_opt y w wd = .ok (some x))
+    (h' : Date.from_isoywd_opt y' w' wd' = .ok (some x)) : y = y' ∧ w = w' ∧ wd = wd' :=
+  isoywd_inj' y y' w w' wd wd' x h h'
+
+/-- exactly one day number: `from_num_days_from_ce_opt` is injective on the `i32`s it accepts -/
+theorem days_inj (n n' : Int) (hn : -2147483648 ≤ n ∧ n ≤ 2147483647)
+    (hn' : -2147483648 ≤ n' ∧ n' ≤ 2147483647) (x : Date)
+    (h : Date.from_num_days_from_ce_opt n = .ok (some x))
+    (h' : Date.from_num_days_from_ce_opt n' = .ok (some x)) : n = n' := days_inj' n n' hn hn' x h h'
+
+/-- non-vacuity: the hypotheses are met (one date, its four accepted tuples), and the checked `week0`
+does panic on a packed word whose week field is 0 while the ISO week of a date never has one -/
+example : Date.from_ymd_opt 2024 2 29 = .ok (some (dateOfYo 2024 60)) ∧
+    Date.from_yo_opt 2024 60 = .ok (some (dateOfYo 2024 60)) ∧
+    Date.from_isoywd_opt 2024 9 .thu = .ok (some (dateOfYo 2024 60)) ∧
+    Date.from_num_days_from_ce_opt 738945 = .ok (some (dateOfYo 2024 60)) ∧
+    IsoWeek.week0r (2024 * 1024 + 0 * 16 + 6) = .panic ∧
+    IsoWeek.week0r (2024 * 1024 + 9 * 16 + 6) = .ok 8 := by decide +kernel
+
+/-! ### End to end: translated source text = specification
+
+`Chrono.Props.GenDate.gen_*_eq` prove the definitions that tools/extractors/rust2lean.py regenerates from the
+Rust source text on every run (lean/Chrono/Extracted/Gen.lean) equal to the hand-written model; the theorems
+above prove the model equal to the specification.  Composed here, so that the statement about the
+translated code does not mention the model at all.  A `NaiveDate` is its packed word (`Date.yof`).
+Not composable yet: `from_isoywd_opt`, `iso_week`, the 0-based twins (no `gen_*_eq`, see audit2/C01.md gap 1). -/
+
+/-- `NaiveDate::from_ymd_opt` as translated from the source, every `i32`/`u32` argument tuple -/
+theorem code_from_ymd_opt (y : Int) (m d : Nat) (hm : m ≤ 4294967295) (hd : d ≤ 4294967295) :
+    Gen.naive_date.NaiveDate.from_ymd_opt y m d =
+      .ok (if MIN_YEAR ≤ y ∧ y ≤ MAX_YEAR ∧ validYmd y m d = true
+           then some (dateOfYo y (ordinalOf y m d)).yof else none) := by
+  rw [GenDate.gen_from_ymd_opt_eq y m d hm hd, ctor_ymd]
+  by_cases c : MIN_YEAR ≤ y ∧ y ≤ MAX_YEAR ∧ validYmd y m d = true
+  · rw [if_pos c, if_pos c]; rfl
+  · rw [if_neg c, if_neg c]; rfl
+
+/-- `NaiveDate::from_yo_opt` as translated from the source -/
+theorem code_from_yo_opt (y : Int) (o : Nat) (ho : o ≤ 4294967295) :
+    Gen.naive_date.NaiveDate.from_yo_opt y o =
+      .ok (if MIN_YEAR ≤ y ∧ y ≤ MAX_YEAR ∧ 1 ≤ o ∧ o ≤ yearLen y then some (dateOfYo y o).yof else none) := by
+  rw [GenDate.gen_from_yo_opt_eq y o ho, ctor_yo]
+  by_cases c : MIN_YEAR ≤ y ∧ y ≤ MAX_YEAR ∧ 1 ≤ o ∧ o ≤ yearLen y
+  · rw [if_pos c, if_pos c]; rfl
+  · rw [if_neg c, if_neg c]; rfl
+
+/-- `NaiveDate::from_num_days_from_ce_opt` as translated from the source, every `i32` -/
+theorem code_from_num_days_from_ce_opt (n : Int) (hn : -2147483648 ≤ n ∧ n ≤ 2147483647) :
+    ∃ r, Gen.naive_date.NaiveDate.from_num_days_from_ce_opt n = .ok r ∧
+      (∀ w, r = some w → ∃ y o, w = (dateOfYo y o).yof ∧ MIN_YEAR ≤ y ∧ y ≤ MAX_YEAR ∧ 1 ≤ o ∧
+        o ≤ yearLen y ∧ dayNumYo y o = n) ∧
+      (r = none ↔ (n < dayNumYo MIN_YEAR 1 ∨ n > dayNumYo MAX_YEAR 365)) := by
+  obtain ⟨r, h1, h2, h3⟩ := ctor_days n hn
+  refine ⟨r.map Date.yof, ?_, ?_, ?_⟩
+  · rw [GenDate.gen_from_num_days_from_ce_opt_eq n hn, h1]; rfl
+  · intro w hw
+    cases r with
+    | none => exact absurd hw (by simp)
+    | some d =>
+      obtain ⟨y, o, e, rest⟩ := h2 d rfl
+      refine ⟨y, o, ?_, rest⟩
+      rw [← e]; exact (Option.some.inj hw).symm
+  · rw [← h3]; cases r <;> simp
+
+/-- the translated accessors on the packed word of the o-th day of year y: the calendar form, the
+closed-form day number, the weekday of the day number -/
+theorem code_accessors (y : Int) (o : Nat) (hy : MIN_YEAR ≤ y ∧ y ≤ MAX_YEAR) (ho : 1 ≤ o ∧ o ≤ yearLen y) :
+    Gen.naive_date.NaiveDate.year (dateOfYo y o).yof = y ∧
+    Gen.naive_date.NaiveDate.ordinal (dateOfYo y o).yof = o ∧
+    Gen.naive_date.NaiveDate.leap_year (dateOfYo y o).yof = isLeap y ∧
+    Gen.naive_date.NaiveDate.month (dateOfYo y o).yof = .ok (monthOfYo y o : Int) ∧
+    Gen.naive_date.NaiveDate.day (dateOfYo y o).yof = .ok (dayOfYo y o : Int) ∧
+    Gen.naive_date.NaiveDate.num_days_from_ce (dateOfYo y o).yof = .ok (dayNumYo y o) ∧
+    Gen.traits.NaiveDate.Datelike.num_days_from_ce (dateOfYo y o).yof = .ok (dayNumYo y o) ∧
+    (∃ w : Nat, Gen.naive_date.NaiveDate.weekday (dateOfYo y o).yof = .ok w ∧
+      (w : Int) = weekdayOf (dayNumYo y o)) := by
+  obtain ⟨a1, a2, a3, a4, a5, _, _, a8, a9⟩ := accessors_ok y o hy ho
+  have hw : -2147483648 ≤ (dateOfYo y o).yof ∧ (dateOfYo y o).yof ≤ 2147483647 := by
+    have hf := (flagsOf_facts y).1
+    have hl := yearLen_ge y
+    have hMIN : MIN_YEAR = -262143 := rfl
+    have hMAX : MAX_YEAR = 262142 := rfl
+    unfold dateOfYo; dsimp only; omega
+  refine ⟨?_, ?_, ?_, ?_, ?_, ?_, ?_, ?_⟩
+  · rw [GenDate.gen_year_eq, a1]
+  · rw [GenDate.gen_ordinal_eq, a2]
+  · rw [GenDate.gen_leap_year_eq, a3]
+  · rw [GenDate.gen_month_eq, a4]; rfl
+  · rw [GenDate.gen_day_eq, a5]; rfl
+  · rw [GenDate.gen_num_days_from_ce_eq _ hw, a8]
+  · rw [GenDate.gen_datelike_num_days_from_ce_eq _ hw, a8]
+  · exact ⟨_, GenDate.gen_weekday_eq _, a9⟩
+
+/-- `NaiveDate::succ_opt` as translated from the source: the next day, `None` exactly at MAX -/
+theorem code_succ_opt (y : Int) (o : Nat) (hy : MIN_YEAR ≤ y ∧ y ≤ MAX_YEAR) (ho : 1 ≤ o ∧ o ≤ yearLen y) :
+    ∃ r, Gen.naive_date.NaiveDate.succ_opt (dateOfYo y o).yof = .ok r ∧
+      (r = none ↔ dateOfYo y o = Date.MAX) ∧
+      (∀ w, r = some w → ∃ y' o', w = (dateOfYo y' o').yof ∧ MIN_YEAR ≤ y' ∧ y' ≤ MAX_YEAR ∧ 1 ≤ o' ∧
+        o' ≤ yearLen y' ∧ dayNumYo y' o' = dayNumYo y o + 1) := by
+  obtain ⟨r, h1, h2, h3⟩ := succ_ok y o hy ho
+  have hw : -2147483648 ≤ (dateOfYo y o).yof ∧ (dateOfYo y o).yof ≤ 2147483647 := by
+    have hf := (flagsOf_facts y).1
+    have hl := yearLen_ge y
+    have hMIN : MIN_YEAR = -262143 := rfl
+    have hMAX : MAX_YEAR = 262142 := rfl
+    unfold dateOfYo; dsimp only; omega
+  refine ⟨r.map Date.yof, ?_, ?_, ?_⟩
+  · rw [GenDate.gen_succ_opt_eq _ hw, h1]; rfl
+  · rw [← h2]; cases r <;> simp
+  · intro w hw'
+    cases r with
+    | none => exact absurd hw' (by simp)
+    | some d =>
+      obtain ⟨y', o', e, b1, b2, b3, b4, b5, _⟩ := h3 d rfl
+      refine ⟨y', o', ?_, b1, b2, b3, b4, b5⟩
+      rw [← e]; exact (Option.some.inj hw').symm
+
+/-- `NaiveDate::pred_opt` as translated from the source: the previous day, `None` exactly at MIN -/
+theorem code_pred_opt (y : Int) (o : Nat) (hy : MIN_YEAR ≤ y ∧ y ≤ MAX_YEAR) (ho : 1 ≤ o ∧ o ≤ yearLen y) :
+    ∃ r, Gen.naive_date.NaiveDate.pred_opt (dateOfYo y o).yof = .ok r ∧
+      (r = none ↔ dateOfYo y o = Date.MIN) ∧
+      (∀ w, r = some w → ∃ y' o', w = (dateOfYo y' o').yof ∧ MIN_YEAR ≤ y' ∧ y' ≤ MAX_YEAR ∧ 1 ≤ o' ∧
+        o' ≤ yearLen y' ∧ dayNumYo y' o' = dayNumYo y o - 1) := by
+  obtain ⟨r, h1, h2, h3⟩ := pred_ok y o hy ho
+  have hf := (flagsOf_facts y).1
+  have hl := yearLen_ge y
+  have hw : -2147483648 ≤ (dateOfYo y o).yof ∧ (dateOfYo y o).yof ≤ 2147483647 := by
+    have hMIN : MIN_YEAR = -262143 := rfl
+    have hMAX : MAX_YEAR = 262142 := rfl
+    unfold dateOfYo; dsimp only; omega
+  have hol : (dateOfYo y o).yof / 8 % 1024 ≤ 732 := by
+    have hfl := (year_flags_spec y).2.2
+    have ho2 := ho.2
+    unfold yearLen at ho2
+    unfold dateOfYo; dsimp only
+    cases hq : isLeap y <;> simp [hq] at hfl ho2 <;> omega
+  refine ⟨r.map Date.yof, ?_, ?_, ?_⟩
+  · rw [GenDate.gen_pred_opt_eq _ hw hol, h1]; rfl
+  · rw [← h2]; cases r <;> simp
+  · intro w hw'
+    cases r with
+    | none => exact absurd hw' (by simp)
+    | some d =>
+      obtain ⟨y', o', e, rest⟩ := h3 d rfl
+      refine ⟨y', o', ?_, rest⟩
+      rw [← e]; exact (Option.some.inj hw').symm
+
+/-- non-vacuity on the translated code itself -/
+example : Gen.naive_date.NaiveDate.from_ymd_opt 2024 2 29 = .ok (some (dateOfYo 2024 60).yof) ∧
+    Gen.naive_date.NaiveDate.from_ymd_opt 2023 2 29 = .ok none ∧
+    Gen.naive_date.NaiveDate.from_yo_opt (-262143) 1 = .ok (some Date.MIN.yof) ∧
+    Gen.naive_date.NaiveDate.succ_opt Date.MAX.yof = .ok none ∧
+    Gen.naive_date.NaiveDate.pred_opt Date.MIN.yof = .ok none := by decide +kernel
 
 end Chrono.Props.C01
